@@ -96,6 +96,7 @@ fn main() {
     }
     if prop == "C02" {
         ops::c02_too_long(&mut out);
+        ops::c02_refcell_borrowed(&mut out);
     }
     if prop == "C03" || prop == "C02" {
         ops::c03_fastpath(&mut g, thorough, &mut out);
